@@ -171,11 +171,12 @@ func stubRawTag(t *cbor.RawTag, data []byte) error {
 }
 
 var detBstrAsked, detBstrErr bool
+var noCodecFaults bool
 
 func stubDetBstr(data cbor.RawMessage) (cbor.RawMessage, error) {
 	if !detBstrAsked {
 		detBstrAsked = true
-		detBstrErr = rt.Choose("detbstr.err", 2) == 1
+		detBstrErr = !noCodecFaults && rt.Choose("detbstr.err", 2) == 1
 	}
 	if detBstrErr {
 		return nil, rt.NewEnvError("detbstr")
@@ -296,18 +297,26 @@ func stubParseCert(der []byte) (*x509.Certificate, error) {
 
 var knownCerts []*x509.Certificate
 
-var chainVerdict bool
+var chainVerdict bool // the chain conforms (no signing time considered)
+var chainTimeOK bool  // ... and every certificate is valid at the signing time supplied
 var chainCalls int
 var chainArgs []*x509.Certificate
 var chainTimeNil bool
+var chainLastOK bool
 
+// lemma C03: an uninterpreted verdict per chain; with a signing time the validity windows are checked in addition
 func sumChainCOSE(chain []*x509.Certificate, t *time.Time) error {
 	chainCalls++
 	chainArgs, chainTimeNil = chain, t == nil
 	if chainCalls == 1 { // a function of the chain: the same verdict on every call
 		chainVerdict = rt.Bool("chain.ok")
+		chainTimeOK = rt.Bool("chain.valid.at.signing.time")
 	}
-	if chainVerdict {
+	chainLastOK = chainVerdict
+	if t != nil {
+		chainLastOK = rt.And(chainVerdict, chainTimeOK)
+	}
+	if chainLastOK {
 		return nil
 	}
 	return rt.NewEnvError("chain")
